@@ -84,6 +84,8 @@ class Gen:
         if r.random() < 0.3:
             s["description"] = r.choice(["A thing.", "Line one.\nLine two.", "  padded  ", "Ünïcode"])
         names = r.sample(CLEAN_PROPS, r.randint(0, 3))
+        if r.random() < 0.04:
+            names.append(r.choice(["__x", "__private", "__a_", "_single", "__both__", "x__"]))     # underscore-led names
         if names:
             s["properties"] = {n: self.sub(depth - 1, refs) for n in names}
             if r.random() < 0.4:
@@ -188,6 +190,10 @@ def regions(files):
             d = s.get("description")
             if isinstance(d, str) and ('"' in d or "\\" in d or "\r" in d or "\x00" in d or d != d.strip() and False):
                 out.add("C02-docstring-quoting")
+            props = s.get("properties")
+            if isinstance(props, dict) and any(isinstance(n, str) and n.startswith("__") and not n.endswith("__") for n in props):
+                # a class-body name with two leading underscores is rewritten by Python's private-name mangling
+                out.add("C02-name-mangling")
             for v in s.values():
                 walk(v)
         elif isinstance(s, list):
